@@ -398,7 +398,7 @@ def draw_edit(st, rnd: random.Random) -> dict:
             op["mod"] = mod = rnd.choice(starred)
             m = st["mods"][mod]
         if m["exports"]:
-            used = sorted({u["name"] for o, om in st["mods"].items() if o != mod for u in om["uses"] if u["dep"] == mod and u["name"] in m["exports"]})
+            used = sorted({u["name"] for o, om in st["mods"].items() if o != mod and om["imports"].get(mod) == "star" for u in om["uses"] if u["dep"] == mod and u["name"] in m["exports"]})
             op["name"] = rnd.choice(used or sorted(m["exports"]))
         return op
     if kind == "toggle_hidden":
@@ -463,6 +463,20 @@ def apply_edit(st, op) -> bool:
             u = new_use(rnd, fresh(st), op["dep"], op["name"])
             u["sig"] = k
             m["uses"].append(u)
+    elif kind == "ensure_cls":
+        if not any(x["kind"] == "cls" and not x.get("hidden") and not x.get("base") for x in m["exports"].values()):
+            add_export(st, rnd, mod, "cls")
+            for x in m["exports"].values():
+                x.setdefault("ok", True)
+    elif kind == "clear_blockers":
+        for om in st["mods"].values():
+            om["broken"] = False
+            om["semblock"] = False
+    elif kind == "add_other_use" and op.get("dep") in m["imports"] and op.get("dep") in st["mods"] and op.get("other") in m["exports"]:
+        u = new_use(rnd, fresh(st), op["dep"], op["name"])
+        u.pop("sig", None)
+        u["other"] = op["other"]
+        m["uses"].append(u)
     elif kind == "toggle_all":
         m["all"] = sorted(m["exports"]) if m.get("all") is None else None
     elif kind == "toggle_all_member" and op.get("name") in m["exports"]:
@@ -559,6 +573,8 @@ def apply_edit(st, op) -> bool:
         cands = [u for u in m["uses"] if u.get("other") in m["exports"] and u["dep"] in m["imports"]]
         if cands:
             u = rnd.choice(cands)
+            if op.get("use") is not None:
+                u = ([c for c in cands if c["id"] == op["use"]] or [u])[0]
             e = m["exports"][u["other"]]
             e["base"] = None if e.get("base") == [u["dep"], u["name"]] else [u["dep"], u["name"]]
     elif kind == "fix_errors":
@@ -570,10 +586,6 @@ def apply_edit(st, op) -> bool:
 
 
 PROFILES = {
-    # star imports and __all__ on top of "structure" (daemon experiment)
-    "structure-star": {"edits": ["change_export", "change_export", "add_export", "remove_export", "add_use", "remove_use", "change_use", "remove_import", "toggle_semblock", "change_used_export",
-                                 "toggle_ignore", "toggle_body_error", "set_base", "make_subclass", "fix_errors", "toggle_hidden", "toggle_all", "toggle_all_member", "toggle_all_member", "toggle_all_member"],
-                       "styles": ["import", "star", "star", "from"], "kinds": ["func", "func", "cls", "cls", "const", "alias", "box", "proto", "nt", "td", "dc", "enum", "ovl", "deco"]},
     # batch-mode histories that cannot close an import cycle (no add_import / add_module / restyle to star)
     "acyclic-batch": {"edits": ["change_export", "change_export", "change_used_export", "add_export", "remove_export", "add_use", "remove_use", "change_use", "remove_import", "toggle_broken", "toggle_semblock",
                                 "toggle_ignore", "toggle_body_error", "toggle_unlisted", "toggle_import_ignore", "delete_module", "rename_module", "to_package", "add_stub", "remove_stub", "set_base",
@@ -586,6 +598,11 @@ PROFILES = {
                             "toggle_ignore", "toggle_body_error", "set_base", "make_subclass", "make_subclass", "fix_errors", "toggle_hidden"],
                   "styles": ["import", "import", "from", "func", "tc"], "kinds": ["func", "func", "cls", "cls", "const", "alias", "box", "proto", "nt", "td", "dc", "enum", "ovl", "deco"]},
 }
+
+
+# star imports and __all__ on top of "structure"
+PROFILES["structure-star"] = {"edits": PROFILES["structure"]["edits"] + ["toggle_all", "toggle_all_member", "toggle_all_member"],
+                              "styles": PROFILES["structure"]["styles"] + ["star", "star"], "kinds": PROFILES["structure"]["kinds"]}
 
 
 def history(seed: int, nmods: int, nsteps: int, profile: str | None = None):
